@@ -1,326 +1,549 @@
 /-
-  MgrTruthCex3 — the added side condition `JobTextOK` (Pk/Props/C06ReachSpec.lean) cannot be dropped.
+  MgrTruthCex3 — the "ABA" trace (delete + re-add of the job's tag and of the tag it references while the job
+  is in flight) is SAFE on the model with tag identities.
 
-  Witness ("resurrection" of the definition text of the job's tag after a referenced tag was replaced): the
-  state `cexS` of MgrTruthCex2 (mark/m = "id:0" matches exactly stream 0, tag/x = "tag:m" with
-  mainT = [mark/m], mfeat = 0 has both streams pending and its job in flight), then
+  History: the first version of this file (`jobTextOK_counterexample`) showed a real defect on this trace: the
+  completion of the tagging job compared only the definition TEXT of the tag with the text of its snapshot, so
+  after
     1. `delTag tag/x`, 2. `delTag mark/m`, 3. `addTag mark/m "id:1"`, 4. `addTag tag/x "tag:m"`,
-    5. `tagDone tag/x [0]` (the search result is the truth at job start).
-  Every other contract holds for all five events (`Good` of the start state, `PayloadOK`, `ImportAddsNew`,
-  `TruthStep`, `ResultOK`, `MarkRefOK`), the during-job masks stay empty, and the completion publishes the
-  answer computed from the OLD mark/m: afterwards tag/x has `mat = [0]`, `unc = []` although tag/x now matches
-  exactly stream 1.
+    5. `tagDone tag/x [0]` (the search result is the truth at job start)
+  it published the answer computed from the OLD mark/m for the NEW tag/x (`mat = [0]`, `unc = []` although
+  the new tag/x matches exactly stream 1).  The defect is fixed: a tag carries the identity `gen` of the
+  `AddTag` call that created it and the completion publishes only if text AND identity agree with the snapshot.
+
+  This file shows on the same trace (start state `abaS`: mark/m = "id:0" matches exactly stream 0,
+  tag/x = "tag:m" with mainT = [mark/m], mfeat = 64 (`fTags`) has both streams pending and its job in flight):
+   * `aba_now_safe`: after the completion the new tag/x (identity 3) still has every stream pending and no
+     recorded match;
+   * `aba_good`, `aba_runOK`: the trace satisfies the hypotheses of `decided_correct_run` — in particular the
+     reduced `JobTextOK`, which no longer mentions deletion and re-creation —, so "decided ⇒ correct" holds
+     at its end by the theorem.
 
   The two facts about `parseTagName` on the literal names (`String.splitOn` is defined by well-founded
   recursion and does not reduce in the kernel) are proved by unrolling `String.splitOnAux` with its equation
-  lemma (`cex3_parse1`, `cex3_parse2`), so the theorem has no hypotheses.
+  lemma (`aba_parse1`, `aba_parse2`), so the theorems have no hypotheses.
 -/
 import Pk.Props.C06ReachSpec
-import Pk.Proofs.MgrTruthCex2
 namespace Pk.Props.C06Reach
 open Pk.Mgr Pk.Props.MgrReach Pk.Proofs.MgrTruth Pk.Proofs.MgrTags
 
-/-- `StepOK` without `JobTextOK` -/
-structure StepOK'' (s : St) (T g : Truth) (e : Ev) (st : Started) (T' : Truth) : Prop where
-  payload : PayloadOK s e
-  addsNew : ImportAddsNew s e
-  truth : TruthStep s e T T'
-  result : ResultOK s e g
-  markRef : MarkRefOK s e
-
-/-- `RunOK` without `JobTextOK` -/
-def RunOK'' (s : St) (T g : Truth) : Hist → Prop
-  | [] => True
-  | (e, st, T') :: rest => StepOK'' s T g e st T' ∧ RunOK'' (step s e st).1 T' (ghostNext s e T' g) rest
-
 /-! ## the witness -/
 
+/-- mark/m at the start (identity 0) -/
+def abaM : Tag :=
+  { defn := "id:0", mainT := [], subT := [], mfeat := 1, sfeat := 0, isMarkDef := true, mat := [0],
+    refBy := ["tag/x"], gen := 0 }
+/-- tag/x while its job is in flight (identity 1; also the job's snapshot) -/
+def abaX : Tag :=
+  { defn := "tag:m", mainT := ["mark/m"], subT := [], mfeat := 64, sfeat := 0, unc := [0, 1], gen := 1 }
 /-- mark/m after tag/x was deleted -/
-def cex3M1 : Tag :=
-  { defn := "id:0", mainT := [], subT := [], mfeat := 1, sfeat := 0, isMarkDef := true, mat := [0], refBy := [] }
-/-- the new mark/m -/
-def cex3M3 : Tag :=
-  { defn := "id:1", mainT := [], subT := [], mfeat := 1, sfeat := 0, isMarkDef := true, mat := [1], refBy := [] }
+def abaM1 : Tag :=
+  { defn := "id:0", mainT := [], subT := [], mfeat := 1, sfeat := 0, isMarkDef := true, mat := [0], refBy := [],
+    gen := 0 }
+/-- the new mark/m (identity 2) -/
+def abaM3 : Tag :=
+  { defn := "id:1", mainT := [], subT := [], mfeat := 1, sfeat := 0, isMarkDef := true, mat := [1], refBy := [],
+    gen := 2 }
 /-- the new mark/m, referenced by the new tag/x -/
-def cex3M4 : Tag :=
+def abaM4 : Tag :=
   { defn := "id:1", mainT := [], subT := [], mfeat := 1, sfeat := 0, isMarkDef := true, mat := [1],
-    refBy := ["tag/x"] }
+    refBy := ["tag/x"], gen := 2 }
+/-- the new tag/x (identity 3): same text and facts as the snapshot, another identity -/
+def abaX4 : Tag :=
+  { defn := "tag:m", mainT := ["mark/m"], subT := [], mfeat := 64, sfeat := 0, unc := [0, 1], gen := 3 }
 
+/-- the start state -/
+def abaS : St :=
+  { tags := [("mark/m", abaM), ("tag/x", abaX)], idx := [0], files := [(0, [0, 1])], used := [(0, 2)],
+    next := 2, all := 2, nrec := 2, pcaps := ["a.pcap"], ngen := 2, tag := true,
+    jTag := some ("tag/x", abaX, [0]) }
 /-- after `delTag tag/x` -/
-def cex3S1 : St :=
-  { tags := [("mark/m", cex3M1)], idx := [0], files := [(0, [0, 1])], used := [(0, 2)],
-    next := 2, all := 2, nrec := 2, pcaps := ["a.pcap"], tag := true, jTag := some ("tag/x", cex2X, [0]) }
+def abaS1 : St :=
+  { tags := [("mark/m", abaM1)], idx := [0], files := [(0, [0, 1])], used := [(0, 2)],
+    next := 2, all := 2, nrec := 2, pcaps := ["a.pcap"], ngen := 2, tag := true,
+    jTag := some ("tag/x", abaX, [0]) }
 /-- after `delTag mark/m` -/
-def cex3S2 : St :=
+def abaS2 : St :=
   { tags := [], idx := [0], files := [(0, [0, 1])], used := [(0, 2)],
-    next := 2, all := 2, nrec := 2, pcaps := ["a.pcap"], tag := true, jTag := some ("tag/x", cex2X, [0]) }
+    next := 2, all := 2, nrec := 2, pcaps := ["a.pcap"], ngen := 2, tag := true,
+    jTag := some ("tag/x", abaX, [0]) }
 /-- after `addTag mark/m "id:1"` -/
-def cex3S3 : St :=
-  { tags := [("mark/m", cex3M3)], idx := [0], files := [(0, [0, 1])], used := [(0, 2)],
-    next := 2, all := 2, nrec := 2, pcaps := ["a.pcap"], tag := true, jTag := some ("tag/x", cex2X, [0]) }
-/-- after `addTag tag/x "tag:m"`: the new tag/x is again the snapshot of the job in flight -/
-def cex3S4 : St :=
-  { tags := [("mark/m", cex3M4), ("tag/x", cex2X)], idx := [0], files := [(0, [0, 1])], used := [(0, 2)],
-    next := 2, all := 2, nrec := 2, pcaps := ["a.pcap"], tag := true, jTag := some ("tag/x", cex2X, [0]) }
-/-- after `tagDone tag/x [0]` -/
-def cex3S5 : St :=
-  { tags := [("mark/m", cex3M4), ("tag/x", cex2X2)], idx := [0], files := [(0, [0, 1])], used := [(0, 1)],
-    next := 2, all := 2, nrec := 2, pcaps := ["a.pcap"], tag := false, jTag := none }
+def abaS3 : St :=
+  { tags := [("mark/m", abaM3)], idx := [0], files := [(0, [0, 1])], used := [(0, 2)],
+    next := 2, all := 2, nrec := 2, pcaps := ["a.pcap"], ngen := 3, tag := true,
+    jTag := some ("tag/x", abaX, [0]) }
+/-- after `addTag tag/x "tag:m"`: the new tag/x carries the text of the job's snapshot, but not its identity -/
+def abaS4 : St :=
+  { tags := [("mark/m", abaM4), ("tag/x", abaX4)], idx := [0], files := [(0, [0, 1])], used := [(0, 2)],
+    next := 2, all := 2, nrec := 2, pcaps := ["a.pcap"], ngen := 4, tag := true,
+    jTag := some ("tag/x", abaX, [0]) }
+/-- after `tagDone tag/x [0]`: the result is discarded, the tag table is unchanged, and a new job is started for
+    the new tag/x (no tagging choice was reported with the event, so the model falls back to the first eligible
+    tag and flags it) -/
+def abaS5 : St :=
+  { tags := [("mark/m", abaM4), ("tag/x", abaX4)], idx := [0], files := [(0, [0, 1])], used := [(0, 2)],
+    next := 2, all := 2, nrec := 2, pcaps := ["a.pcap"], ngen := 4, tag := true,
+    jTag := some ("tag/x", abaX4, [0]), badChoice := true }
 
-def cex3F3 : Facts := {err := false, main := [], sub := [], mfeat := 1, sfeat := 0, idsok := true, ids := [1]}
-def cex3F4 : Facts :=
-  {err := false, main := ["mark/m"], sub := [], mfeat := 0, sfeat := 0, idsok := false, ids := []}
+def abaF3 : Facts := {err := false, main := [], sub := [], mfeat := 1, sfeat := 0, idsok := true, ids := [1]}
+def abaF4 : Facts :=
+  {err := false, main := ["mark/m"], sub := [], mfeat := 64, sfeat := 0, idsok := false, ids := []}
 
-def cex3E1 : Ev := .delTag "tag/x"
-def cex3E2 : Ev := .delTag "mark/m"
-def cex3E3 : Ev := .addTag "mark/m" "" "id:1" cex3F3
-def cex3E4 : Ev := .addTag "tag/x" "" "tag:m" cex3F4
-def cex3E5 : Ev := .tagDone "tag/x" [0]
+def abaE1 : Ev := .delTag "tag/x"
+def abaE2 : Ev := .delTag "mark/m"
+def abaE3 : Ev := .addTag "mark/m" "" "id:1" abaF3
+def abaE4 : Ev := .addTag "tag/x" "" "tag:m" abaF4
+def abaE5 : Ev := .tagDone "tag/x" [0]
 
+/-- the truth at the start (and the ghost: the truth when the job for tag/x started): stream 0 -/
+def abaT : Truth := fun _ id => decide (id = 0)
 /-- the truth after event 3: the new mark/m matches exactly stream 1 -/
-def cex3T3 : Truth := fun n id => if n = "mark/m" then decide (id = 1) else decide (id = 0)
+def abaT3 : Truth := fun n id => if n = "mark/m" then decide (id = 1) else decide (id = 0)
 /-- the truth after event 4: the new tag/x = "tag:m" matches exactly stream 1, too -/
-def cex3T4 : Truth := fun _ id => decide (id = 1)
+def abaT4 : Truth := fun _ id => decide (id = 1)
 
 /-- the history -/
-def cex3H : Hist :=
-  [(cex3E1, {}, cex2T), (cex3E2, {}, cex2T), (cex3E3, {}, cex3T3), (cex3E4, {}, cex3T4), (cex3E5, {}, cex3T4)]
+def abaH : Hist :=
+  [(abaE1, {}, abaT), (abaE2, {}, abaT), (abaE3, {}, abaT3), (abaE4, {}, abaT4), (abaE5, {}, abaT4)]
 
-/-! ## `parseTagName` on the two names -/
+/-! ## `parseTagName` and `isMarkName` on the two names -/
 
-theorem cex3_split1 : "tag/x".splitOn "/" = ["tag", "x"] := by
+theorem aba_markName : isMarkName "mark/m" = true := by simp [isMarkName]
+theorem aba_tagName : isMarkName "tag/x" = false := by simp [isMarkName]
+
+theorem aba_split1 : "tag/x".splitOn "/" = ["tag", "x"] := by
   simp only [String.splitOn]
   rw [if_neg (by decide)]
   iterate 6 (rw [String.splitOnAux]; simp (decide := true) only [↓reduceIte])
-theorem cex3_split2 : "mark/m".splitOn "/" = ["mark", "m"] := by
+theorem aba_split2 : "mark/m".splitOn "/" = ["mark", "m"] := by
   simp only [String.splitOn]
   rw [if_neg (by decide)]
   iterate 7 (rw [String.splitOnAux]; simp (decide := true) only [↓reduceIte])
-theorem cex3_parse1 : parseTagName "tag/x" = ("tag", "x", false) := by
+theorem aba_parse1 : parseTagName "tag/x" = ("tag", "x", false) := by
   unfold parseTagName
-  rw [cex3_split1]
+  rw [aba_split1]
   decide
-theorem cex3_parse2 : parseTagName "mark/m" = ("mark", "m", true) := by
+theorem aba_parse2 : parseTagName "mark/m" = ("mark", "m", true) := by
   unfold parseTagName
-  rw [cex3_split2]
+  rw [aba_split2]
   decide
 
 /-! ## the model's transitions -/
 
-theorem cex3_step1 : step cexS cex3E1 {} = (cex3S1, .ok) := rfl
-theorem cex3_step2 : step cex3S1 cex3E2 {} = (cex3S2, .ok) := rfl
-theorem cex3_step3 : step cex3S2 cex3E3 {} = (cex3S3, .ok) := by
-  unfold cex3E3
-  rw [step_addTag_eq, cex3_parse2]
+theorem aba_step1 : step abaS abaE1 {} = (abaS1, .ok) := rfl
+theorem aba_step2 : step abaS1 abaE2 {} = (abaS2, .ok) := rfl
+theorem aba_step3 : step abaS2 abaE3 {} = (abaS3, .ok) := by
+  unfold abaE3
+  rw [step_addTag_eq, aba_parse2]
   rfl
-theorem cex3_step4 : step cex3S3 cex3E4 {} = (cex3S4, .ok) := by
-  unfold cex3E4
-  rw [step_addTag_eq, cex3_parse1]
+theorem aba_step4 : step abaS3 abaE4 {} = (abaS4, .ok) := by
+  unfold abaE4
+  rw [step_addTag_eq, aba_parse1]
   rfl
-theorem cex3_step5 : step cex3S4 cex3E5 {} = (cex3S5, .none) := rfl
+theorem aba_step5 : step abaS4 abaE5 {} = (abaS5, .none) := rfl
 
-/-! ## lookups -/
+/-! ## lookups in the literal tables -/
 
-theorem cex3_job {s : St} (hs : s.jTag = some ("tag/x", cex2X, [0])) {jn : String} {snap : Tag} {held : List Nat}
-    (h : s.jTag = some (jn, snap, held)) : jn = "tag/x" ∧ snap = cex2X ∧ held = [0] := by
+theorem aba_sget {n : String} {t : Tag} (h : sget abaS.tags n = some t) :
+    (n = "mark/m" ∧ t = abaM) ∨ (n = "tag/x" ∧ t = abaX) := by
+  have h' : sget [("mark/m", abaM), ("tag/x", abaX)] n = some t := h
+  rw [sget_cons] at h'
+  split at h'
+  · next hn => exact Or.inl ⟨(by simpa using hn.symm), (Option.some.inj h').symm⟩
+  · rw [sget_cons] at h'
+    split at h'
+    · next hn => exact Or.inr ⟨(by simpa using hn.symm), (Option.some.inj h').symm⟩
+    · simp [sget] at h'
+
+theorem aba_mem {nt : String × Tag} (h : nt ∈ abaS.tags) : nt = ("mark/m", abaM) ∨ nt = ("tag/x", abaX) := by
+  have h' : nt ∈ [("mark/m", abaM), ("tag/x", abaX)] := h
+  simpa using h'
+
+/-- the job in flight in the states `abaS` … `abaS4` -/
+theorem aba_job {s : St} (hs : s.jTag = some ("tag/x", abaX, [0])) {jn : String} {snap : Tag} {held : List Nat}
+    (h : s.jTag = some (jn, snap, held)) : jn = "tag/x" ∧ snap = abaX ∧ held = [0] := by
   rw [hs] at h
-  have : ("tag/x", cex2X, [0]) = (jn, snap, held) := Option.some.inj h
+  have : ("tag/x", abaX, [0]) = (jn, snap, held) := Option.some.inj h
   cases this
   exact ⟨rfl, rfl, rfl⟩
 
-theorem cex3_sget3 {n : String} {t : Tag} (h : sget cex3S3.tags n = some t) : n = "mark/m" ∧ t = cex3M3 := by
-  have h' : sget [("mark/m", cex3M3)] n = some t := h
+theorem aba_sget3 {n : String} {t : Tag} (h : sget abaS3.tags n = some t) : n = "mark/m" ∧ t = abaM3 := by
+  have h' : sget [("mark/m", abaM3)] n = some t := h
   rw [sget_cons] at h'
   split at h'
   · next hn => exact ⟨(by simpa using hn.symm), (Option.some.inj h').symm⟩
   · simp [sget] at h'
 
-theorem cex3_lt2 {id : Nat} {l : List Nat} (h : id ∈ l) (hl : ∀ x ∈ l, x < 2 := by decide) : id < 2 := hl id h
+theorem aba_lt2 {id : Nat} {l : List Nat} (h : id ∈ l) (hl : ∀ x ∈ l, x < 2 := by decide) : id < 2 := hl id h
+
+/-! ## the start state satisfies all invariants -/
+
+theorem aba_refsM : abaM.refs = [] := rfl
+theorem aba_refsX : abaX.refs = ["mark/m"] := rfl
+theorem aba_sgetM : sget abaS.tags "mark/m" = some abaM := rfl
+theorem aba_sgetX : sget abaS.tags "tag/x" = some abaX := rfl
+
+theorem aba_reach : Reach abaS := by
+  refine ⟨?_, ?_, ?_, ?_, ?_, ?_, ?_, ?_, ?_, ?_, ?_, ?_, ?_, ?_, ?_, ?_⟩
+  · show List.Pairwise (· < ·) ["mark/m", "tag/x"]
+    simp only [List.pairwise_cons, List.mem_cons, List.not_mem_nil, or_false, forall_eq, false_imp_iff, implies_true,
+      List.Pairwise.nil, and_true]
+    decide
+  · simp [C09.JobsWF, abaS]
+  · refine ⟨fun f => ?_, fun f => ?_, fun f => ?_, ?_, ?_, ?_, ?_, ?_⟩
+    · by_cases hf : f = 0
+      · subst hf; rfl
+      · have h0 : (0 == f) = false := by simpa using fun h => hf h.symm
+        simp [C13.holders, C13.viewHeld, C13.jobHeld, abaS, nget, h0, List.count_cons]
+    · by_cases hf : f = 0
+      · subst hf; simp [abaS, nget]
+      · have h0 : (0 == f) = false := by simpa using fun h => hf h.symm
+        simp [abaS, nget, h0]
+    · by_cases hf : f = 0
+      · subst hf; rfl
+      · have h0 : (0 == f) = false := by simpa using fun h => hf h.symm
+        simp [abaS, nget, h0]
+    · simp [abaS]
+    · simp [abaS]
+    · simp [abaS]
+    · simp [abaS]
+    · simp [abaS]
+  · intro jn held h; cases h
+  · intro id hid
+    refine ⟨0, List.mem_singleton.2 rfl, ?_⟩
+    have hid' : id < 2 := hid
+    show id ∈ [0, 1]
+    simp only [List.mem_cons, List.not_mem_nil, or_false]
+    omega
+  · exact Nat.le_refl _
+  · exact Nat.le_refl _
+  · intro n t h id hid
+    show id < 2
+    rcases aba_sget h with ⟨_, rfl⟩ | ⟨_, rfl⟩
+    · cases hid
+    · have : id ∈ [0, 1] := hid
+      simp only [List.mem_cons, List.not_mem_nil, or_false] at this
+      omega
+  · refine ⟨?_, fun _ h => (by cases h), fun _ h => (by cases h), fun _ h => (by cases h),
+      fun _ h => (by cases h), fun _ _ h => (by cases h)⟩
+    intro n snap held h id hid
+    obtain ⟨_, rfl, _⟩ := aba_job rfl h
+    show id < 2
+    have : id ∈ [0, 1] := hid
+    simp only [List.mem_cons, List.not_mem_nil, or_false] at this
+    omega
+  · refine ⟨fun nt h id hid => ?_, fun n snap held h id hid => ?_⟩
+    · show id < 2
+      rcases aba_mem h with rfl | rfl
+      · have : id ∈ [0] := hid
+        simp only [List.mem_cons, List.not_mem_nil, or_false] at this
+        omega
+      · cases hid
+    · obtain ⟨_, rfl, _⟩ := aba_job rfl h
+      cases hid
+  · intro n t h c hc
+    rcases aba_sget h with ⟨_, rfl⟩ | ⟨_, rfl⟩ <;> cases hc
+  · intro n t h c hc
+    rcases aba_sget h with ⟨_, rfl⟩ | ⟨_, rfl⟩ <;> cases hc
+  · refine ⟨?_, ?_, ?_, ?_, ?_⟩
+    · intro n snap held ot hj hot _
+      obtain ⟨rfl, rfl, _⟩ := aba_job rfl hj
+      rcases aba_sget hot with ⟨hn, _⟩ | ⟨_, rfl⟩
+      · exact absurd hn (by decide)
+      · exact ⟨rfl, rfl⟩
+    · intro n t h hm
+      rcases aba_sget h with ⟨_, rfl⟩ | ⟨rfl, _⟩
+      · exact ⟨rfl, rfl⟩
+      · rw [aba_tagName] at hm; cases hm
+    · intro n1 t1 n2 t2 h1 h2 hm1 hm2 _
+      rcases aba_sget h1 with ⟨rfl, _⟩ | ⟨_, rfl⟩
+      · rw [aba_markName] at hm1; cases hm1
+      · rcases aba_sget h2 with ⟨rfl, _⟩ | ⟨_, rfl⟩
+        · rw [aba_markName] at hm2; cases hm2
+        · exact ⟨rfl, rfl⟩
+    · intro n snap held hj hm
+      obtain ⟨rfl, _, _⟩ := aba_job rfl hj
+      rw [aba_tagName] at hm; cases hm
+    · intro n snap held hj _ m ot hot hm _
+      obtain ⟨_, rfl, _⟩ := aba_job rfl hj
+      rcases aba_sget hot with ⟨rfl, _⟩ | ⟨_, rfl⟩
+      · rw [aba_markName] at hm; cases hm
+      · exact ⟨rfl, rfl⟩
+  · intro nt h r hr tr htr
+    rcases aba_mem h with rfl | rfl
+    · rw [aba_refsM] at hr; cases hr
+    · rw [aba_refsX] at hr
+      have hr' : r = "mark/m" := by simpa using hr
+      subst hr'
+      rw [aba_sgetM] at htr
+      cases htr
+      exact List.mem_singleton.2 rfl
+  · intro nt h r hr
+    rcases aba_mem h with rfl | rfl
+    · rw [aba_refsM] at hr; cases hr
+    · rw [aba_refsX] at hr
+      have hr' : r = "mark/m" := by simpa using hr
+      subst hr'
+      rw [aba_sgetM]; rfl
+  · exact ⟨fun _ => rfl, fun c hc => (by cases hc)⟩
+
+theorem aba_acyclic : C09.Acyclic abaS := rfl
+
+theorem aba_genInv : GenInv abaS := by
+  refine ⟨?_, ?_, ?_⟩
+  · intro n t h
+    show t.gen < 2
+    rcases aba_sget h with ⟨_, rfl⟩ | ⟨_, rfl⟩ <;> decide
+  · intro jn snap held hj
+    obtain ⟨_, rfl, _⟩ := aba_job rfl hj
+    show (1 : Nat) < 2
+    decide
+  · intro n1 t1 n2 t2 h1 h2 hg
+    rcases aba_sget h1 with ⟨rfl, rfl⟩ | ⟨rfl, rfl⟩ <;> rcases aba_sget h2 with ⟨rfl, rfl⟩ | ⟨rfl, rfl⟩
+    · rfl
+    · exact absurd hg (by decide)
+    · exact absurd hg (by decide)
+    · rfl
+
+theorem aba_tagFeatM : TagFeat abaM := ⟨fun h => absurd rfl h, fun h => absurd rfl h⟩
+theorem aba_tagFeatX : TagFeat abaX := ⟨fun _ => by decide, fun h => absurd rfl h⟩
+
+theorem aba_tagFeatInv : TagFeatInv abaS := by
+  refine ⟨?_, ?_⟩
+  · intro n t h
+    rcases aba_sget h with ⟨_, rfl⟩ | ⟨_, rfl⟩
+    · exact aba_tagFeatM
+    · exact aba_tagFeatX
+  · intro jn snap held hj
+    obtain ⟨_, rfl, _⟩ := aba_job rfl hj
+    exact aba_tagFeatX
+
+theorem aba_inv : C06.Inv abaS abaT := by
+  intro n t h id hid hnu
+  have hid' : id < 2 := hid
+  rcases aba_sget h with ⟨_, rfl⟩ | ⟨_, rfl⟩
+  · show id ∈ [0] ↔ decide (id = 0) = true
+    simp
+  · exfalso; apply hnu
+    show id ∈ [0, 1]
+    simp only [List.mem_cons, List.not_mem_nil, or_false]
+    omega
+
+/-- ghost = truth and every stream is pending in the snapshot: nothing differs from the answer to be published -/
+theorem aba_jobInv : JobInv abaS abaT abaT := by
+  intro jn snap held n ot hj hot hg _
+  obtain ⟨rfl, rfl, _⟩ := aba_job rfl hj
+  rcases aba_sget hot with ⟨_, rfl⟩ | ⟨_, rfl⟩
+  · exact absurd hg (by decide)
+  · refine Or.inr ⟨rfl, fun id hid hne => ?_⟩
+    exfalso; apply hne
+    have hid' : id < 2 := hid
+    have hm : id ∈ abaX.unc := by
+      show id ∈ [0, 1]
+      simp only [List.mem_cons, List.not_mem_nil, or_false]
+      omega
+    simp only [Ans, hm, if_true]
+    rfl
+
+/-- the start state of the trace satisfies every invariant of `decided_correct_run` -/
+theorem aba_good : Good abaS abaT abaT :=
+  ⟨aba_reach, aba_acyclic, aba_genInv, aba_tagFeatInv, aba_inv, aba_jobInv⟩
 
 /-! ## events 1 and 2: the two deletions -/
 
-theorem cex3_payload1 : PayloadOK cexS cex3E1 := ⟨trivial, trivial, trivial, trivial, trivial⟩
-theorem cex3_payload2 : PayloadOK cex3S1 cex3E2 := ⟨trivial, trivial, trivial, trivial, trivial⟩
+theorem aba_payload1 : PayloadOK abaS abaE1 := ⟨trivial, trivial, trivial, trivial, trivial⟩
+theorem aba_payload2 : PayloadOK abaS1 abaE2 := ⟨trivial, trivial, trivial, trivial, trivial⟩
 
-theorem cex3_truth1 : TruthStep cexS cex3E1 cex2T cex2T := by
+theorem aba_truth1 : TruthStep abaS abaE1 abaT abaT := by
   refine ⟨fun h => ?_, fun _ => ?_⟩
-  · rw [cex3_step1] at h; cases h
-  · show ∀ n, n ≠ "tag/x" → SameAt cexS cex2T cex2T n
+  · rw [aba_step1] at h; cases h
+  · show ∀ n, n ≠ "tag/x" → SameAt abaS abaT abaT n
     intro n _ t _ id _; rfl
 
-theorem cex3_truth2 : TruthStep cex3S1 cex3E2 cex2T cex2T := by
+theorem aba_truth2 : TruthStep abaS1 abaE2 abaT abaT := by
   refine ⟨fun h => ?_, fun _ => ?_⟩
-  · rw [cex3_step2] at h; cases h
-  · show ∀ n, n ≠ "mark/m" → SameAt cex3S1 cex2T cex2T n
+  · rw [aba_step2] at h; cases h
+  · show ∀ n, n ≠ "mark/m" → SameAt abaS1 abaT abaT n
     intro n _ t _ id _; rfl
 
-theorem cex3_stepOK1 : StepOK'' cexS cex2T cex2T cex3E1 {} cex2T :=
-  ⟨cex3_payload1, trivial, cex3_truth1, trivial, trivial⟩
-theorem cex3_stepOK2 : StepOK'' cex3S1 cex2T cex2T cex3E2 {} cex2T :=
-  ⟨cex3_payload2, trivial, cex3_truth2, trivial, trivial⟩
+/-- the reduced `JobTextOK` says nothing about deletions -/
+theorem aba_jobText1 : JobTextOK abaS abaE1 {} abaT abaT := fun _ _ _ _ => trivial
+theorem aba_jobText2 : JobTextOK abaS1 abaE2 {} abaT abaT := fun _ _ _ _ => trivial
 
-/-- the deletion of the job's tag is NOT what `JobTextOK` excludes (the text is gone afterwards) … -/
-theorem cex3_jobText1 : JobTextOK cexS cex3E1 {} cex2T cex2T := by
-  intro jn snap held hj
-  obtain ⟨rfl, rfl, _⟩ := cex2_job hj
-  intro _ hl
-  rw [cex3_step1] at hl
-  obtain ⟨ot, hot, _⟩ := hl
-  have h' : sget [("mark/m", cex3M1)] "tag/x" = some ot := hot
-  have hn : sget [("mark/m", cex3M1)] "tag/x" = none := rfl
-  rw [hn] at h'; cases h'
+theorem aba_stepOK1 : StepOK abaS abaT abaT abaE1 {} abaT :=
+  ⟨aba_payload1, trivial, trivial, aba_truth1, trivial, aba_jobText1⟩
+theorem aba_stepOK2 : StepOK abaS1 abaT abaT abaE2 {} abaT :=
+  ⟨aba_payload2, trivial, trivial, aba_truth2, trivial, aba_jobText2⟩
 
 /-! ## event 3: the new mark/m -/
 
-theorem cex3_payload3 : PayloadOK cex3S2 cex3E3 := by
+theorem aba_payload3 : PayloadOK abaS2 abaE3 := by
   refine ⟨trivial, trivial, ?_, trivial, ?_, ?_, ?_, ?_⟩
   · intro id hid
     have : id ∈ [1] := hid
-    exact cex3_lt2 this
+    exact aba_lt2 this
   · intro n snap held hj hd
-    obtain ⟨_, rfl, _⟩ := cex3_job rfl hj
+    obtain ⟨_, rfl, _⟩ := aba_job rfl hj
     exact absurd hd (by decide)
   · intro m t h
     have h' : sget ([] : List (String × Tag)) m = some t := h
     simp [sget] at h'
   · intro _; exact ⟨rfl, rfl⟩
   · show isMarkName "mark/m" = true ↔ _
-    rw [cex3_parse2]
-    exact ⟨fun _ => Or.inl rfl, fun _ => cex2_markName⟩
+    rw [aba_parse2]
+    exact ⟨fun _ => Or.inl rfl, fun _ => aba_markName⟩
 
-theorem cex3_truth3 : TruthStep cex3S2 cex3E3 cex2T cex3T3 := by
+theorem aba_featOK3 : EvFeatOK abaE3 := ⟨fun h => absurd rfl h, fun h => absurd rfl h⟩
+
+theorem aba_truth3 : TruthStep abaS2 abaE3 abaT abaT3 := by
   refine ⟨fun h => ?_, fun _ => ?_⟩
-  · rw [cex3_step3] at h; cases h
-  · show (∀ n, n ≠ "mark/m" → SameAt cex3S2 cex2T cex3T3 n) ∧
-      ((parseTagName "mark/m").2.2 = true → ∀ id, id < cex3S2.next → (cex3T3 "mark/m" id = true ↔ id ∈ cex3F3.ids))
+  · rw [aba_step3] at h; cases h
+  · show (∀ n, n ≠ "mark/m" → SameAt abaS2 abaT abaT3 n) ∧
+      ((parseTagName "mark/m").2.2 = true → ∀ id, id < abaS2.next → (abaT3 "mark/m" id = true ↔ id ∈ abaF3.ids))
     refine ⟨fun n hn t _ id _ => ?_, fun _ id _ => ?_⟩
     · show (if n = "mark/m" then decide (id = 1) else decide (id = 0)) = decide (id = 0)
       rw [if_neg hn]
     · show (if "mark/m" = "mark/m" then decide (id = 1) else decide (id = 0)) = true ↔ id ∈ [1]
       simp
 
-theorem cex3_stepOK3 : StepOK'' cex3S2 cex2T cex2T cex3E3 {} cex3T3 :=
-  ⟨cex3_payload3, trivial, cex3_truth3, trivial, trivial⟩
+/-- … nor about the creation of a tag -/
+theorem aba_jobText3 : JobTextOK abaS2 abaE3 {} abaT abaT3 := fun _ _ _ _ => trivial
 
-/-! ## event 4: the new tag/x carries the text of the job's snapshot again -/
+theorem aba_stepOK3 : StepOK abaS2 abaT abaT abaE3 {} abaT3 :=
+  ⟨aba_payload3, aba_featOK3, trivial, aba_truth3, trivial, aba_jobText3⟩
 
-theorem cex3_payload4 : PayloadOK cex3S3 cex3E4 := by
+/-! ## event 4: the new tag/x carries the text of the job's snapshot again (under a new identity) -/
+
+theorem aba_payload4 : PayloadOK abaS3 abaE4 := by
   refine ⟨trivial, trivial, ?_, trivial, ?_, ?_, ?_, ?_⟩
   · intro id hid; cases hid
   · intro n snap held hj _
-    obtain ⟨_, rfl, _⟩ := cex3_job rfl hj
+    obtain ⟨_, rfl, _⟩ := aba_job rfl hj
     exact ⟨rfl, rfl⟩
   · intro m t h hd
-    obtain ⟨_, rfl⟩ := cex3_sget3 h
+    obtain ⟨_, rfl⟩ := aba_sget3 h
     exact absurd hd (by decide)
   · intro h; cases h
   · show isMarkName "tag/x" = true ↔ _
-    rw [cex3_parse1, cex2_tagName]
+    rw [aba_parse1, aba_tagName]
     constructor
     · intro h; cases h
     · intro h
       rcases h with h | h <;> exact absurd h (by decide)
 
-theorem cex3_truth4 : TruthStep cex3S3 cex3E4 cex3T3 cex3T4 := by
+/-- the facts of "tag:m" report the tag-reference feature: `64 &&& fTags ≠ 0` -/
+theorem aba_featOK4 : EvFeatOK abaE4 := ⟨fun _ => by decide, fun h => absurd rfl h⟩
+
+theorem aba_truth4 : TruthStep abaS3 abaE4 abaT3 abaT4 := by
   refine ⟨fun h => ?_, fun _ => ?_⟩
-  · rw [cex3_step4] at h; cases h
-  · show (∀ n, n ≠ "tag/x" → SameAt cex3S3 cex3T3 cex3T4 n) ∧
-      ((parseTagName "tag/x").2.2 = true → ∀ id, id < cex3S3.next → (cex3T4 "tag/x" id = true ↔ id ∈ cex3F4.ids))
+  · rw [aba_step4] at h; cases h
+  · show (∀ n, n ≠ "tag/x" → SameAt abaS3 abaT3 abaT4 n) ∧
+      ((parseTagName "tag/x").2.2 = true → ∀ id, id < abaS3.next → (abaT4 "tag/x" id = true ↔ id ∈ abaF4.ids))
     refine ⟨fun n _ t ht id _ => ?_, fun h => ?_⟩
-    · obtain ⟨rfl, _⟩ := cex3_sget3 ht
+    · obtain ⟨rfl, _⟩ := aba_sget3 ht
       rfl
-    · rw [cex3_parse1] at h; cases h
+    · rw [aba_parse1] at h; cases h
 
-theorem cex3_stepOK4 : StepOK'' cex3S3 cex3T3 cex2T cex3E4 {} cex3T4 :=
-  ⟨cex3_payload4, trivial, cex3_truth4, trivial, trivial⟩
+/-- this is the event the OLD `JobTextOK` had to exclude (the snapshot's text is back under the job's name);
+    the reduced contract holds trivially -/
+theorem aba_jobText4 : JobTextOK abaS3 abaE4 {} abaT3 abaT4 := fun _ _ _ _ => trivial
 
-/-- … the witness does violate the condition that is being dropped at event 4: the snapshot's text is back
-    under the job's name although the tag did not carry it before -/
-theorem cex3_not_jobTextOK : ¬ JobTextOK cex3S3 cex3E4 {} cex3T3 cex3T4 := by
-  intro h
-  have hl : Live (step cex3S3 cex3E4 {}).1 "tag/x" cex2X := by
-    rw [cex3_step4]; exact ⟨cex2X, rfl, rfl⟩
-  obtain ⟨⟨ot, hot, _⟩, _⟩ := h "tag/x" cex2X [0] rfl rfl hl
-  obtain ⟨hn, _⟩ := cex3_sget3 hot
-  exact absurd hn (by decide)
+theorem aba_stepOK4 : StepOK abaS3 abaT3 abaT abaE4 {} abaT4 :=
+  ⟨aba_payload4, aba_featOK4, trivial, aba_truth4, trivial, aba_jobText4⟩
 
 /-! ## event 5: the completion -/
 
-theorem cex3_payload5 : PayloadOK cex3S4 cex3E5 := by
+theorem aba_payload5 : PayloadOK abaS4 abaE5 := by
   refine ⟨trivial, ?_, ?_, trivial, trivial⟩
   · intro jn snap held hj
-    exact (cex3_job rfl hj).1
+    exact (aba_job rfl hj).1
   · intro id hid
     have : id ∈ [0] := hid
-    exact cex3_lt2 this
+    exact aba_lt2 this
 
-theorem cex3_truth5 : TruthStep cex3S4 cex3E5 cex3T4 cex3T4 :=
+theorem aba_truth5 : TruthStep abaS4 abaE5 abaT4 abaT4 :=
   ⟨fun _ _ _ _ _ _ => rfl, fun _ _ _ _ _ _ => rfl⟩
 
-theorem cex3_result5 : ResultOK cex3S4 cex3E5 cex2T := by
+/-- the result handed to the completion is the truth at job start (the ghost is still `abaT`) on the streams
+    the job was asked about -/
+theorem aba_result5 : ResultOK abaS4 abaE5 abaT := by
   intro snap held hj id
-  obtain ⟨_, rfl, _⟩ := cex3_job rfl hj
+  obtain ⟨_, rfl, _⟩ := aba_job rfl hj
   show id ∈ [0] ↔ id ∈ [0, 1] ∧ decide (id = 0) = true
   simp only [List.mem_cons, List.not_mem_nil, or_false, decide_eq_true_eq]
   omega
 
-theorem cex3_stepOK5 : StepOK'' cex3S4 cex3T4 cex2T cex3E5 {} cex3T4 :=
-  ⟨cex3_payload5, trivial, cex3_truth5, cex3_result5, trivial⟩
+theorem aba_jobText5 : JobTextOK abaS4 abaE5 {} abaT4 abaT4 := fun _ _ _ _ => trivial
+
+theorem aba_stepOK5 : StepOK abaS4 abaT4 abaT abaE5 {} abaT4 :=
+  ⟨aba_payload5, trivial, trivial, aba_truth5, aba_result5, aba_jobText5⟩
 
 /-! ## the run -/
 
-theorem cex3_ghost1 : ghostNext cexS cex3E1 cex2T cex2T = cex2T := rfl
-theorem cex3_ghost2 : ghostNext cex3S1 cex3E2 cex2T cex2T = cex2T := rfl
-theorem cex3_ghost3 : ghostNext cex3S2 cex3E3 cex3T3 cex2T = cex2T := rfl
-theorem cex3_ghost4 : ghostNext cex3S3 cex3E4 cex3T4 cex2T = cex2T := rfl
+/-- the job stays in flight through events 1–4, so the ghost stays the truth at its start -/
+theorem aba_ghost1 : ghostNext abaS abaE1 abaT abaT = abaT := rfl
+theorem aba_ghost2 : ghostNext abaS1 abaE2 abaT abaT = abaT := rfl
+theorem aba_ghost3 : ghostNext abaS2 abaE3 abaT3 abaT = abaT := rfl
+theorem aba_ghost4 : ghostNext abaS3 abaE4 abaT4 abaT = abaT := rfl
 
-theorem cex3_runOK : RunOK'' cexS cex2T cex2T cex3H := by
-  have e1 : (step cexS cex3E1 {}).1 = cex3S1 := by rw [cex3_step1]
-  have e2 : (step cex3S1 cex3E2 {}).1 = cex3S2 := by rw [cex3_step2]
-  have e3 : (step cex3S2 cex3E3 {}).1 = cex3S3 := by rw [cex3_step3]
-  have e4 : (step cex3S3 cex3E4 {}).1 = cex3S4 := by rw [cex3_step4]
-  refine ⟨cex3_stepOK1, ?_⟩
-  rw [e1, cex3_ghost1]
-  refine ⟨cex3_stepOK2, ?_⟩
-  rw [e2, cex3_ghost2]
-  refine ⟨cex3_stepOK3, ?_⟩
-  rw [e3, cex3_ghost3]
-  refine ⟨cex3_stepOK4, ?_⟩
-  rw [e4, cex3_ghost4]
-  exact ⟨cex3_stepOK5, trivial⟩
+/-- the whole trace satisfies the hypotheses of `decided_correct_run` (in particular the reduced `JobTextOK`,
+    which no longer mentions deletion and re-creation), so "decided ⇒ correct" holds at its end by the theorem -/
+theorem aba_runOK : RunOK abaS abaT abaT abaH := by
+  have e1 : (step abaS abaE1 {}).1 = abaS1 := by rw [aba_step1]
+  have e2 : (step abaS1 abaE2 {}).1 = abaS2 := by rw [aba_step2]
+  have e3 : (step abaS2 abaE3 {}).1 = abaS3 := by rw [aba_step3]
+  have e4 : (step abaS3 abaE4 {}).1 = abaS4 := by rw [aba_step4]
+  refine ⟨aba_stepOK1, ?_⟩
+  rw [e1, aba_ghost1]
+  refine ⟨aba_stepOK2, ?_⟩
+  rw [e2, aba_ghost2]
+  refine ⟨aba_stepOK3, ?_⟩
+  rw [e3, aba_ghost3]
+  refine ⟨aba_stepOK4, ?_⟩
+  rw [e4, aba_ghost4]
+  exact ⟨aba_stepOK5, trivial⟩
 
-theorem cex3_runSt : runSt cexS cex3H = cex3S5 := by
-  show runSt (step cexS cex3E1 {}).1 _ = _
-  rw [cex3_step1]
-  show runSt (step cex3S1 cex3E2 {}).1 _ = _
-  rw [cex3_step2]
-  show runSt (step cex3S2 cex3E3 {}).1 _ = _
-  rw [cex3_step3]
-  show runSt (step cex3S3 cex3E4 {}).1 _ = _
-  rw [cex3_step4]
-  show runSt (step cex3S4 cex3E5 {}).1 _ = _
-  rw [cex3_step5]
+theorem aba_runSt : runSt abaS abaH = abaS5 := by
+  show runSt (step abaS abaE1 {}).1 _ = _
+  rw [aba_step1]
+  show runSt (step abaS1 abaE2 {}).1 _ = _
+  rw [aba_step2]
+  show runSt (step abaS2 abaE3 {}).1 _ = _
+  rw [aba_step3]
+  show runSt (step abaS3 abaE4 {}).1 _ = _
+  rw [aba_step4]
+  show runSt (step abaS4 abaE5 {}).1 _ = _
+  rw [aba_step5]
   rfl
 
-theorem cex3_runT : runT cex2T cex3H = cex3T4 := rfl
+theorem aba_runT : runT abaT abaH = abaT4 := rfl
 
-/-- the final state decides stream 0 for tag/x wrongly -/
-theorem cex3_not_inv : ¬ C06.Inv cex3S5 cex3T4 := by
-  intro h
-  have h1 : sget cex3S5.tags "tag/x" = some cex2X2 := rfl
-  have h2 : (0 : Nat) < cex3S5.next := by decide
-  have := (h "tag/x" cex2X2 h1 0 h2 (by intro h; cases h)).1 (List.mem_singleton.2 rfl)
-  cases this
+/-- the ABA trace no longer publishes: after the completion tag/x (the NEW incarnation, gen 3) still has every
+    stream pending and no recorded match -/
+theorem aba_now_safe :
+    ∃ t, sget (runSt abaS abaH).tags "tag/x" = some t ∧ t.mat = [] ∧ t.unc = [0, 1] ∧ t.gen = 3 := by
+  rw [aba_runSt]
+  exact ⟨abaX4, rfl, rfl, rfl, rfl⟩
 
-/-- without `JobTextOK` "decided ⇒ correct" is not preserved along histories: deleting the tag of the job in
-    flight and a tag it references, and re-creating both (the referenced tag with another definition, the job's
-    tag with the text of the snapshot) makes the completion publish the answers computed from the old
-    referenced tag, with nothing pending -/
-theorem jobTextOK_counterexample :
-    ¬ (∀ (s : St) (T g : Truth) (h : Hist), Good s T g → RunOK'' s T g h → C06.Inv (runSt s h) (runT T h)) := by
-  intro h
-  have := h cexS cex2T cex2T cex3H cex2_good cex3_runOK
-  rw [cex3_runSt, cex3_runT] at this
-  exact cex3_not_inv this
+/-- … and "decided ⇒ correct" holds in the final state (directly; `decided_correct_run` gives the same from
+    `aba_good` and `aba_runOK`): mark/m decides both streams (exactly stream 1 matches), tag/x decides none -/
+theorem aba_final_inv : C06.Inv (runSt abaS abaH) (runT abaT abaH) := by
+  rw [aba_runSt, aba_runT]
+  intro n t h id hid hnu
+  have hid' : id < 2 := hid
+  have h' : sget [("mark/m", abaM4), ("tag/x", abaX4)] n = some t := h
+  rw [sget_cons] at h'
+  split at h'
+  · cases Option.some.inj h'
+    show id ∈ [1] ↔ decide (id = 1) = true
+    simp
+  · rw [sget_cons] at h'
+    split at h'
+    · cases Option.some.inj h'
+      exfalso; apply hnu
+      show id ∈ [0, 1]
+      simp only [List.mem_cons, List.not_mem_nil, or_false]
+      omega
+    · simp [sget] at h'
 
 end Pk.Props.C06Reach
